@@ -1052,3 +1052,27 @@ func pkgAssignedFromCall(c *Ctx, pkg string, idx int, pred func(call *ast.CallEx
 	}
 	return nil
 }
+
+// bodyOrCalleesMatch: pred holds on some node of the function's body or of a same-package function it
+// calls (depth levels deep).
+func bodyOrCalleesMatch(c *Ctx, d *core.FuncDecl, pred func(d *core.FuncDecl, n ast.Node) bool, depth int) bool {
+	hit := false
+	ast.Inspect(d.Decl.Body, func(n ast.Node) bool {
+		if n == nil || hit {
+			return !hit
+		}
+		if pred(d, n) {
+			hit = true
+			return false
+		}
+		if call, ok := n.(*ast.CallExpr); ok && depth > 0 {
+			if f, _ := typeutil.Callee(d.Pkg.TypesInfo, call).(*types.Func); f != nil && f.Pkg() == d.Obj.Pkg() {
+				if cd := c.Prog.Decl(f.Origin()); cd != nil && cd != d && bodyOrCalleesMatch(c, cd, pred, depth-1) {
+					hit = true
+				}
+			}
+		}
+		return !hit
+	})
+	return hit
+}
